@@ -1,0 +1,29 @@
+//go:build verif
+
+package forkchoice
+
+// Read-only view of the wrapper's private fields for the correspondence harness in /verif.
+// Not compiled without the `verif` build tag. Takes no lock: the harness is single-threaded and
+// must be able to look at an instance whose mutex is held by a call that never returned.
+
+type VerifWrapperDump struct {
+	Balances  []Gwei
+	Pin       *NodeRef
+	Justified Checkpoint
+	Finalized Checkpoint
+}
+
+func VerifDumpWrapper(f Forkchoice) (d VerifWrapperDump, ok bool) {
+	fc, ok := f.(*ProtoForkChoice)
+	if !ok || fc == nil {
+		return VerifWrapperDump{}, false
+	}
+	d.Balances = append([]Gwei(nil), fc.balances...)
+	if fc.pin != nil {
+		p := *fc.pin
+		d.Pin = &p
+	}
+	d.Justified = fc.justified
+	d.Finalized = fc.finalized
+	return d, true
+}
